@@ -37,7 +37,8 @@ def build():
     W = tv('W')
     ww = tp.TypeConstructor('WW', [W], [box.new([tp.WildCardType(tp.WildCardType(W, tp.Covariant), tp.Covariant)])])
     cases.append(('wildcard-of-wildcard', [box, ww], ww, [W]))
-    grounds = [S, I, box.new([S]), box.new([tp.WildCardType(I, tp.Covariant)])]
+    grounds = [S, I, box.new([S]), box.new([tp.WildCardType(I, tp.Covariant)]),
+               tp.WildCardType(), box.new([tp.WildCardType()])]          # star projections contain no type variable
     return dict(tp=tp, kt=kt, cases=cases, grounds=grounds)
 
 
@@ -188,7 +189,7 @@ def run(tier, seed, stop_first=False):
                 report('empty-map-equal', case=ci, args=ai, expected=str(open_inst), actual=str(e3))
     return dict(evaluations=evals, distinct_nontrivial=len(distinct),
                 rule='%d class tables (nested wildcard bounds, a bound that mentions another parameter, a 3-level generic '
-                     'chain, wildcard of wildcard) x every tuple of 4 ground argument types: TypeConstructor.new and '
+                     'chain, wildcard of wildcard) x every tuple of 6 ground argument types (incl. star projections): TypeConstructor.new and '
                      'substitute_type compared with a reference substitution on normalized terms (type arguments, supertypes '
                      'transitively, no remaining type variable, empty map gives an equal type) and pickle snapshots of the '
                      'class table and arguments before/after. Non-trivial: instantiation succeeded; distinct by (table, args)'
